@@ -151,6 +151,7 @@ type PO struct {
 	Pure       []string // non-inlined module callees treated as pure
 	Callbacks  bool
 	WalkRounds int // symbolic invocations per collections Walk callback (0 = 1)
+	Roles      map[string]string // parameter roles by type (see Opts.ParamRoles)
 	Params     []string
 	// OpaqueSorters: module functions that sort (call sort.* / slices.Sort* directly) stay
 	// opaque and pure, whatever their name, package or signature: rules reason about
@@ -159,7 +160,7 @@ type PO struct {
 }
 
 func (po PO) key() string {
-	return fmt.Sprintf("%d|%d|%v|%v|%v|%v|%v|%v|%d", po.Depth, po.Visits, po.NoInline, po.OnlyInline, po.Pure, po.Callbacks, po.Params, po.OpaqueSorters, po.WalkRounds)
+	return fmt.Sprintf("%d|%d|%v|%v|%v|%v|%v|%v|%d", po.Depth, po.Visits, po.NoInline, po.OnlyInline, po.Pure, po.Callbacks, po.Params, po.OpaqueSorters, po.WalkRounds) + fmt.Sprint(po.Roles)
 }
 
 // the derivation functions C17 proves pure: never inlined, always pure.
@@ -194,7 +195,7 @@ func (c *Ctx) Paths(fn *ssa.Function, po PO) []*Path {
 	}
 	c.FuncsAnalysed[shortName(fn.String())] = true
 	ps := &pathSet{}
-	opts := Opts{MaxDepth: po.Depth, MaxVisits: po.Visits, Callbacks: po.Callbacks, WalkRounds: po.WalkRounds, ParamNames: po.Params,
+	opts := Opts{MaxDepth: po.Depth, MaxVisits: po.Visits, Callbacks: po.Callbacks, WalkRounds: po.WalkRounds, ParamRoles: po.Roles, ParamNames: po.Params,
 		Inline: func(f *ssa.Function) bool {
 			n := funcName(f)
 			if containsAny(n, derivationFns) {
